@@ -218,7 +218,9 @@ def plan(pid, tier, seed):
                     if rng.random() < 0.3:
                         st.append({"a": "lock_try", "kind": rng.choice(["open", "dump"])})
                 st += [{"a": "flush"}, {"a": "wait_cb"}, {"a": "wait_idle"}, {"a": "lock_try", "kind": "dump"},
-                       {"a": "lock_try", "kind": "open"}, {"a": "drop"}, {"a": "lock_try", "kind": "dump"},
+                       {"a": "lock_try", "kind": "open"}, {"a": "drop"},
+                       {"a": "lk_race", "threads": rng.choice([2, 4, 8]), "rounds": 12 if q else 60},
+                       {"a": "lock_try", "kind": "dump"},
                        {"a": "lock_try", "kind": "open"}, {"a": "open", "cfg": cfg}, {"a": "lock_try", "kind": "open"},
                        {"a": "read", "from": 0, "to": MAXI}]
                 out.append(dict(mode="free", tag="lock", steps=st))
